@@ -10,7 +10,7 @@ script line:   n <N> [old] [park <site>:<ordinal>:<until>]* | <task> ; <task> ; 
                 (runs `dur` ns then returns (val, errcode); errcode 0 = nil; a handler with hon=1 returns
                 (nil, E999) as soon as its ctx is done)
   task i is sent by client goroutine g at virtual instant `time` (or as soon as g's previous Send returned).
-  park s:o:u = the o-th call of ants.VerifHook(site s) blocks until instant u.
+  park s:o:u = the o-th call of ants.VerifHook(site s), s ∈ 1..4, blocks until instant u.
 monitor input:  <script line> TAB <observation of the real code>
 output:         ok | ok overflow | reject model-allows: <outcome> || <outcome> ...
 The monitor explores EVERY interleaving of the model (Got.Model.Ants.step) under maximal progress
@@ -50,6 +50,7 @@ structure DState where
   c1 : Nat := 0
   c2 : Nat := 0
   c3 : Nat := 0
+  c4 : Nat := 0
   arrived : List (Nat × Nat × Nat × Nat) := []    -- (site, task, attempt, release time)
 
 def errOf (c : Nat) : Err := if c = 0 then .nil else .h c
@@ -223,6 +224,7 @@ def encTPc : TPc → Nat
 def encCPc : CPc → List Nat
   | .none => [0] | .queued => [1] | .taken _ => [2] | .running _ h => [3, h.toNat]
   | .returned _ v e => [4, v, encErr e] | .hook1 _ v e => [5, v, encErr e] | .cas _ v e => [6, v, encErr e]
+  | .hook4 _ v e => [10, v, encErr e]
   | .write _ v e => [7, v, encErr e] | .closing _ => [8] | .closed => [9]
 
 def encOpt : Option (Val × Err) → List Nat
@@ -239,7 +241,7 @@ def encTask (t : Task) : List Nat :=
 
 def keyOf (sc : Scen) (d : DState) : List Nat :=
   let s := d.s
-  [s.now, s.running, s.maxRunning, d.c1, d.c2, d.c3, s.taskQ.length] ++ s.taskQ ++ [s.innerQ.length]
+  [s.now, s.running, s.maxRunning, d.c1, d.c2, d.c3, d.c4, s.taskQ.length] ++ s.taskQ ++ [s.innerQ.length]
     ++ s.innerQ.flatMap (fun p => [p.1, p.2])
     ++ [d.arrived.length] ++ d.arrived.flatMap (fun (a, b, c, e) => [a, b, c, e])
     ++ (List.range sc.tasks.size).flatMap (fun k => encTask (s.task k))
@@ -269,11 +271,11 @@ def hookGate (sc : Scen) (d : DState) (site k a : Nat) (act : Act) : List DState
   else
     match d.arrived.find? (fun (x : Nat × Nat × Nat × Nat) => x.1 = site ∧ x.2.1 = k ∧ x.2.2.1 = a) with
     | none =>
-      let ord := (match site with | 1 => d.c1 | 2 => d.c2 | _ => d.c3) + 1
+      let ord := (match site with | 1 => d.c1 | 2 => d.c2 | 3 => d.c3 | _ => d.c4) + 1
       let rel := match sc.parks.find? (fun p => p.site = site ∧ p.ord = ord) with
         | some p => p.until_ | none => 0
       let d' := match site with
-        | 1 => { d with c1 := ord } | 2 => { d with c2 := ord } | _ => { d with c3 := ord }
+        | 1 => { d with c1 := ord } | 2 => { d with c2 := ord } | 3 => { d with c3 := ord } | _ => { d with c4 := ord }
       [{ d' with arrived := d.arrived ++ [(site, k, a, rel)] }]
     | some (_, _, _, rel) =>
       if rel ≤ d.s.now then
@@ -288,7 +290,7 @@ def hookGate (sc : Scen) (d : DState) (site k a : Nat) (act : Act) : List DState
 def noWriter (t : Task) : Bool :=
   (List.range t.att).all fun a =>
     let x := t.at_ a
-    (match x.pc with | .write _ _ _ => false | _ => true) &&
+    (match x.pc with | .write _ _ _ | .hook4 _ _ _ => false | _ => true) &&
     (x.decided != 0 || (match x.pc with | .closing _ | .closed => true | _ => false))
 
 def safeAct (s : State) (k : Nat) : Option Act :=
@@ -313,6 +315,7 @@ def safeAct (s : State) (k : Nat) : Option Act :=
       let x := t.at_ a
       match x.pc with
       | .hook1 _ _ _ => some (Act.hook1 k a)
+      | .hook4 _ _ _ => some (Act.hook4 k a)
       | .cas _ _ _ => if x.decided != 0 then some (.wCas k a) else none
       | .returned _ _ _ => if x.ctxDone then some (.wCheck k a) else none
       | .write _ _ _ =>
@@ -337,6 +340,7 @@ def succsAll (sc : Scen) (d : DState) : List DState :=
           if (List.range w).all (fun w' => (s.slot w').isSome) then tryStep sc d (.wTake k a w) else []
         | .wStart k a _ => tryStep sc d (.wStart k a (behOf sc k t.inv).hon)
         | .hook1 k a => hookGate sc d 1 k a (.hook1 k a)
+        | .hook4 k a => hookGate sc d 4 k a (.hook4 k a)
         | .hook2 k => hookGate sc d 2 k t.cur (.hook2 k)
         | .hook3 k => hookGate sc d 3 k t.cur (.hook3 k)
         | a => tryStep sc d a
